@@ -188,16 +188,16 @@ def ft11(F, R):
             if k in seen:
                 continue
             seen.add(k)
-            if op in ("Gt", "Ge"):
-                a, bb = bb, a
-                op = {"Gt": "Lt", "Ge": "Le"}[op]
-            diff = _padd(_pdict(bb), _pdict(a), -1)          # b - a  (> 0 for Lt, >= 0 for Le)
-            if op == "Le":
-                diff = _padd(diff, {(): 1})
-            # expected: cluster_count + 2 - x
-            exp = _padd(_pdict(want_end), {}, 1)
-            rest = _padd(diff, exp, -1)
-            ok = len(rest) == 1 and list(rest.values()) == [-1] and all(len(m) == 1 for m in rest)
+            # the test splits the cluster numbers at an exclusive bound E (x < E on one side, x >= E on the other), whichever
+            # way round it is written and whichever edge is taken: x < B / x >= B -> E = B; x <= B / x > B -> E = B + 1;
+            # with the bound on the left: B > x / B <= x -> E = B; B >= x / B < x -> E = B + 1
+            bound_right = "cluster_count" in tstr(bb)
+            x_side, b_side = (a, bb) if bound_right else (bb, a)
+            plus1 = (op in ("Le", "Gt")) if bound_right else (op in ("Ge", "Lt"))
+            E = _pdict(b_side)
+            if plus1:
+                E = _padd(E, {(): 1})
+            ok = _padd(E, _pdict(want_end), -1) == {} and "cluster_count" not in tstr(x_side)
             ncmp += 1
             R.require(ok, fn, "bound:%s" % fn.npath.split("::")[-1], "cluster range test `%s %s %s` is not `x < cluster_count + 2`: this site disagrees with the allocator about the last valid cluster (cluster_count + 1)" % (show(a), op, show(bb)), fn.loc(b))
         for b, t in fn.calls():
@@ -1325,6 +1325,14 @@ def fc1(F, R):
       doc="one handle per file: VolumeManagerData::file_is_open answers true exactly when some open-file record has the same volume and the same directory-entry location (entry_block, entry_offset) - the true answer lies behind these three equalities and behind no other condition (no exemption by mode, size or handle), and false is answered only when the whole table has been scanned; every open / delete path consults it (MD3, MD8)")
 def fo1(F, R):
     fn = F.fn(VMD + "::file_is_open")
+    from .rules_guard import file_is_open_any_form
+    af = file_is_open_any_form(F, fn)
+    if af is not None:
+        # `open_files.iter().any(|f| a && b && c)`: true iff some record satisfies the conjunction, false only after the whole scan
+        R.require(af[0], fn, "answers", "file_is_open: %s" % af[1], fn.loc(0))
+        R.require(af[2] == {"raw_volume", "entry_block", "entry_offset"}, fn, "true-iff-same-entry", "file_is_open compares %s; it must be exactly volume, entry block and entry offset" % sorted(af[2]), fn.loc(0))
+        R.ok(fn, "match-is-final", "Iterator::any answers true at the first record that satisfies the predicate")
+        return
     trues = [d[1] for d in fn.defs().get(0, []) if d[0] == "assign" and fn.term_of_rvalue(d[3], d[1])[:2] == ("c", 1)]
     falses = [d[1] for d in fn.defs().get(0, []) if d[0] == "assign" and fn.term_of_rvalue(d[3], d[1])[:2] == ("c", 0)]
     others = [d for d in fn.defs().get(0, []) if not (d[0] == "assign" and fn.term_of_rvalue(d[3], d[1])[0] == "c")]
